@@ -158,7 +158,8 @@ def _skeleton(f):
             out.append("call " + (t.get("callee") or "indirect"))
         elif t["k"] == "switch":
             out.append("switch %d" % len(t["targets"]))
-        elif t["k"] == "assert" and t["ak"] != "overflow":
+        elif t["k"] == "assert" and t["ak"] not in ("overflow", "other"):
+            # "other" = the misaligned / null pointer checks rustc adds with debug assertions (UB checks, no behaviour)
             out.append("assert " + t["ak"])
     return sorted(out)
 
